@@ -253,6 +253,7 @@ C16_LIFE = C16_UNITS + ["MemoryPoolAllocator.dtor",
                         "MemoryPoolAllocator.copy_assign", "MemoryPoolAllocator.move_assign"]
 for hn, fn, cl in (("h_walks", "Clear / Size / Capacity", "pools of <= 3 chunks: Size/Capacity are the sums over the chunk list; Clear releases every chunk but the first exactly once and resets it"),
                    ("h_dtor", "~MemoryPoolAllocator", "pools of <= 3 chunks, 1..3 owners: a non-last copy only decrements; the last copy releases all chunks and the owned shared block exactly once, never a user buffer"),
+                   ("h_move_assign", "operator=(MemoryPoolAllocator&&)", "two unrelated pools: the target adopts the source's pool without changing its owner count, the source is left empty and its destruction releases nothing, the target's previous pool is released exactly when it lost its last owner"),
                    ("h_copy_assign", "operator=(const MemoryPoolAllocator&)", "unrelated pools, two copies of one pool, and self-assignment: owner counts, release of the previous pool exactly when it lost its last owner, nothing released for aliases")):
     C16_JOBS.append(dict(id="C16.%s" % hn[2:], src="c16_alloc.c", harness=hn, units=C16_LIFE, defs=["UNIT_Lifecycle"], arch="simple", route="B(<=3 chunks)", bound="chunk list length <= 3, capacities <= 64",
                          function="MemoryPoolAllocator::" + fn, unwind=5, timeout=900, replay="pool_life", claims="bounded: " + cl))
@@ -407,7 +408,7 @@ _INFO = {
  "C15": dict(assumptions=["GCC's ifunc resolver picks one of the checked wrappers; -march code generation is correct"],
              undecided=["SkipContainer, Quote, parseStringInplace, the DOM parse driver and the serializer across configurations", "SkipString for len > 40 (relational)", "production vs sanitizer preprocessor paths other than in_page_32 / is_eq_lt_32 / cmp_lt_32 (C14)"]),
  "C16": dict(assumptions=["BaseAllocator::Malloc returns null or a fresh suitably aligned block; Free releases it (stub)", "libc memcpy copies n bytes (contract)", "sizes, capacities and the policy's chunk size <= 2^48"],
-             undecided=["constructors (member-initialiser lists, user buffer alignment), move construction / assignment", "chunk lists longer than 3 in Clear / Size / Capacity / destructor / copy assignment", "the locked-allocator option (C17)"]),
+             undecided=["constructors (member-initialiser lists), move construction", "chunk lists longer than 3 in Clear / Size / Capacity / destructor / copy assignment", "the locked-allocator option (C17)"]),
 }
 for _p, _d in _INFO.items():
     PROPS[_p]["assumptions"] = _COMMON_ASSUME + (_MODEL_ASSUME if _p in ("C05", "C09", "C11", "C14", "C15", "C08") else []) + _d["assumptions"]
